@@ -186,8 +186,9 @@ func createCompiledRouteHandler(route *ast.Route, bytecode []byte, wsHub *websoc
 		}
 
 		// Parse and inject request body as 'input' for POST/PUT/PATCH requests
+		// (and DELETE: executeRoute reads a body for the same four methods)
 		inputIsObject := false
-		if ctx.Request.Method == "POST" || ctx.Request.Method == "PUT" || ctx.Request.Method == "PATCH" {
+		if ctx.Request.Method == "POST" || ctx.Request.Method == "PUT" || ctx.Request.Method == "PATCH" || ctx.Request.Method == "DELETE" {
 			contentType := ctx.Request.Header.Get("Content-Type")
 			shouldParseJSON := contentType == "" ||
 				contentType == "application/json" ||
